@@ -3,6 +3,7 @@ import numpy as np
 
 import core
 import fagen
+import gen
 
 THEOREMS = []  # filled in below once the Lean file exists (kept in sync by hand)
 THEOREMS = [
@@ -188,6 +189,26 @@ def oracle(sc, kmax=6, converge=True):
     return None
 
 
+def oracle_array(sc, seed):
+    """enrolment from a feature array: one recording is one session however the array is stored (NumPy, or a Dask array in
+    several row blocks) - the factors are those of enrol([statistics of the whole array])"""
+    import dask.array as da
+
+    r = np.random.default_rng(seed)
+    mach = fagen.mk_machine(sc, enroll_iterations=int(r.integers(1, 5)))
+    X = gen.sample_data(r, np.asarray(sc["w"]), np.asarray(sc["m"]) + 0.5, np.asarray(sc["v"]), int(r.integers(9, 30)))
+    ref = core.impl(lambda: mach.enroll([mach.ubm.acc_stats(X)]))
+    if isinstance(ref, core.ImplError):
+        return None
+    for name, xin in (("NumPy array", X), ("Dask array in three row blocks", da.from_array(X, chunks=(-(-len(X) // 3), X.shape[1])))):
+        got = core.impl(lambda: mach.enroll_using_array(xin))
+        a = [np.asarray(t, float) for t in (got if sc["jfa"] else [got])] if not isinstance(got, core.ImplError) else None
+        b = [np.asarray(t, float) for t in (ref if sc["jfa"] else [ref])]
+        if a is None or not all(core.close(p, q, 1e-9, 1e-10) for p, q in zip(a, b)):
+            return {"sig": "enrolment-from-array-differs", "what": f"enroll_using_array({name}) gives {got!r}; enroll of the statistics of the same recording gives {ref!r}"}
+    return None
+
+
 def search(ctx):
     fails, seen = [], set()
     for i in range(ctx.budget(16, 160)):
@@ -196,7 +217,14 @@ def search(ctx):
             sc["layout"] = "dask"  # enrolment statistics whose arrays are (uncomputed) Dask arrays
         ctx.count("search:" + ("jfa" if sc["jfa"] else "isv") + (":dask-backed-statistics" if sc.get("layout") == "dask" else ""))
         ctx.case(["s", core.tolist(sc["U"]), core.tolist([s["f"] for s in sc["sts"]])], nontrivial=True)
-        f = oracle(sc, 4 if ctx.tier == "quick" else 8, converge=(ctx.tier == "thorough" or i < 3 or ctx.broken))
+        # (thousands of iterations on Dask-backed statistics would take minutes: those scenarios check the first sweeps only)
+        f = oracle(sc, 4 if ctx.tier == "quick" else 8, converge=(ctx.tier == "thorough" or i < 3 or ctx.broken) and sc.get("layout") != "dask")
+        if not f and i % 2 == 0:
+            aseed = int(ctx.rng.integers(0, 2**31))
+            ctx.count("search:enrol-from-array")
+            f = oracle_array(sc, aseed)
+            if f:
+                f["array_seed"] = aseed
         if f and f["sig"] not in seen:
             seen.add(f["sig"])
             f["input"] = {k: sc[k] for k in ("C", "D", "rU", "rV", "jfa", "w", "m", "v", "U", "V", "Dd", "route", "np_ints", "layout", "sts")}
@@ -210,4 +238,6 @@ def replay(d):
     sc = d["input"]
     sc.setdefault("y", [])
     sc.setdefault("z", [])
+    if d.get("array_seed") is not None:
+        return oracle_array(fix_sc(sc), int(d["array_seed"]))
     return oracle(fix_sc(sc))
